@@ -2,16 +2,26 @@
 
 One run = one generated pipeline (cfg, JSON-able):
 
-    source external -> 1..4 middle nodes -> sink external
+    source -> 1..4 middle nodes -> sink
 
-middle nodes: function stage (adds / overwrites a field with arithmetic from a table; optional
-`ready=` free input = stalling stage; three ways of declaring the inputs), called-method stage (a real
-Adapter `self.callee`: readiness from the driver, result = table function of the argument the model
-predicts, or -- no inputs -- a prefetched value with `no_dependency`), middle external (observes some
-fields, may overwrite others), and the pair "exit external + re-entry external" bridged either by a
+source / sink: an external (`add_external`, driven by an AdapterTrans), a called method (`call_method` of an
+Adapter: the pipeline pulls items from / pushes items into a method of the environment) or a function stage
+(the source function numbers the items with a counter of its own, the sink function records what it was given);
+a source external / called method may be `no_dependency`.
+
+middle nodes: function stage (adds / overwrites one or several fields with arithmetic from a table; optional
+`ready=` free input = stalling stage; four ways of declaring the inputs: inferred from the parameter names,
+named + `i=`, a single `arg`, `**kwargs`), called-method stage (a real Adapter `self.callee`: readiness from the
+driver, result = table function of the argument the model predicts, or -- no inputs -- a prefetched value with
+`no_dependency`), middle external (observes some fields, may overwrite others; without observed fields it may be
+`no_dependency`: a value feed), and the pair "exit external + re-entry external" bridged either by a
 transaction inside the harness (re-entry `no_dependency`, as in test_pipeline.TwoExternalsPipeline) or
 by two AdapterTrans and a harness buffer (an external module with latency; re-entry with or without
-`no_dependency`).  `fifo(depth)` or the default Pipe after random nodes.
+`no_dependency`).  `fifo(depth)` or the default Pipe after random nodes (also before the first / after the last
+node, where the builder has nothing to buffer).  0-3 external clear hooks (`add_external_clear`), each clearing
+its own subset of the external modules.  Field shapes: unsigned scalars by default; a share of the runs uses
+signed, 1-bit, wide (up to 64), enum, (nested) struct and array fields; a node that generates an already known
+field again may redefine its shape (the builder takes the shape of a field from its latest generator).
 
 Reference model (untimed, states only what C28 states): items in entry order; every observable node
 ("pass" node: its `done` coincides with the item passing the node's combiner) has a pointer to the next
@@ -21,12 +31,13 @@ node are paired with items by order within the clear epoch.  A `clear` executed 
 item that entered in a cycle <= c and has not left through the sink in a cycle <= c (read from the
 code: Pipe.clear / CircularAllocator.clear are defined last, so they override a same-cycle write; a
 same-cycle read still returns its data): an item accepted in the clear cycle is dropped, an item read
-by the sink in the clear cycle is delivered.
+by the sink in the clear cycle is delivered.  Field values are kept as raw bit patterns; the stage functions
+see them with the declared shape (a signed scalar is sign-extended, everything composite is its bit pattern).
 """
 
 from __future__ import annotations
 
-from ..comp import CompScenario, leaves
+from ..comp import CompScenario
 from ..propbase import PropBase, make_plan, phase_at
 
 FW = {"tag": 12, "a": 8, "b": 8, "c": 5, "d": 16, "e": 8}
@@ -34,38 +45,152 @@ DATA = ["a", "b", "c", "d", "e"]
 NOPS = 6
 
 
-def lay(fields):
-    return [(f, FW[f]) for f in fields]
+# --------------------------------------------------------------------------------------------
+# field shapes: spec = ["u", w] | ["s", w] | ["enum", w] | ["struct", [[name, spec], ...]] | ["arr", spec, n]
 
 
-def mask(f):
-    return (1 << FW[f]) - 1
+def spec_width(s):
+    k = s[0]
+    if k in ("u", "s", "enum"):
+        return s[1]
+    if k == "struct":
+        return sum(spec_width(x) for _, x in s[1])
+    return spec_width(s[1]) * s[2]
 
 
-def py_op(op, xs, k, out):
-    """Table of stage functions (python side)."""
+def spec_kinds(s, top=True):
+    k = s[0]
+    if k == "u":
+        return {"1bit"} if s[1] == 1 else ({"wide"} if s[1] > 32 else set())
+    if k == "s":
+        return {"signed"}
+    if k == "enum":
+        return {"enum"}
+    if k == "struct":
+        out = {"struct" if top else "nested_struct"}
+        for _, x in s[1]:
+            out |= spec_kinds(x, False)
+        return out
+    return {"array"} | spec_kinds(s[1], False)
+
+
+def smask(s):
+    return (1 << spec_width(s)) - 1
+
+
+def sval(s, raw):
+    """The integer a stage function computes with, given the raw bits of a field of shape s."""
+    if s[0] == "s" and raw >> (s[1] - 1):
+        return raw - (1 << s[1])
+    return raw
+
+
+class Types:
+    """Shapes of the pipeline fields of one run.  A node that generates a field may give it a new shape
+    (nd["retype"]), so a field has a shape before node n (`sb[n]`: what node n may require) and after it
+    (`sa[n]`: what node n generates, and what flows on)."""
+
+    def __init__(self, cfg, nodes):
+        cur = {f: ["u", w] for f, w in FW.items()}
+        cur.update(cfg.get("ftypes") or {})
+        self.sb, self.sa = [], []
+        for nd in nodes:
+            self.sb.append(cur)
+            if nd.get("retype"):
+                cur = dict(cur)
+                cur.update(nd["retype"])
+            self.sa.append(cur)
+        self._enums: dict = {}
+
+    def enum(self, w):
+        # one class per width and run: two classes with equal members are different shapes
+        if w not in self._enums:
+            import types
+
+            from amaranth.lib import enum
+
+            def fill(ns):
+                for i in range(1 << w):
+                    ns[f"M{i}"] = i
+
+            self._enums[w] = types.new_class(f"E{w}", (enum.Enum,), {"shape": w}, fill)
+        return self._enums[w]
+
+    def build(self, s):
+        from amaranth import signed
+        from amaranth.lib import data
+
+        k = s[0]
+        if k == "u":
+            return s[1]
+        if k == "s":
+            return signed(s[1])
+        if k == "enum":
+            return self.enum(s[1])
+        if k == "struct":
+            return data.StructLayout({n: self.build(x) for n, x in s[1]})
+        return data.ArrayLayout(self.build(s[1]), s[2])
+
+    # fresh method layouts (new shape objects on every call, as independent modules would declare them)
+    def lay_in(self, n, fields):
+        """Fields node n requires."""
+        return [(f, self.build(self.sb[n][f])) for f in fields]
+
+    def lay_out(self, n, fields):
+        """Fields node n generates."""
+        return [(f, self.build(self.sa[n][f])) for f in fields]
+
+
+def py_op(op, xs, k, m):
+    """Table of stage functions (python side); xs = input values as the stage sees them, m = mask of the output."""
     if not xs:
-        return k & mask(out)
+        return k & m
     x = xs[0]
     y = xs[1] if len(xs) > 1 else k
     r = [x + k, x ^ k, x + y, x - y, x * 3 + k, (x << 1) | 1][op]
-    return r & mask(out)
+    return r & m
 
 
-def hw_op(op, xs, k, out):
+def as_plain(v):
+    from amaranth.hdl import ValueCastable
+
+    return v.as_value() if isinstance(v, ValueCastable) else v
+
+
+def hw_op(op, xs, k, ospec):
     """Table of stage functions (Amaranth side); the result is truncated by the assignment."""
     from amaranth import C
 
     if not xs:
-        return C(k & mask(out), FW[out])
-    x = xs[0]
-    y = xs[1] if len(xs) > 1 else k
+        return C(k & smask(ospec), spec_width(ospec))
+    x = as_plain(xs[0])
+    y = as_plain(xs[1]) if len(xs) > 1 else k
     return [lambda: x + k, lambda: x ^ k, lambda: x + y, lambda: x - y, lambda: x * 3 + k, lambda: (x << 1) | 1][op]()
 
 
+def typed(m, T, spec, value):
+    """What a stage function returns for a field of shape spec: composite / enum fields need a value of exactly
+    that shape."""
+    from amaranth import Signal, Value
+
+    if spec[0] in ("u", "s"):
+        return value
+    tmp = Signal(T.build(spec))
+    m.d.top_comb += Value.cast(tmp).eq(value)
+    return tmp
+
+
+def rawfields(view):
+    """(field, raw unsigned assignable bits) of a method argument / result."""
+    base = view.as_value()
+    return [(name, base[fld.offset:fld.offset + fld.width]) for name, fld in view.shape() if fld.width]
+
+
 def full_nodes(cfg):
-    src = {"t": "src", "gen": cfg["src"], "fifo": cfg.get("src_fifo", 0), "stall": cfg.get("src_stall", False)}
-    snk = {"t": "snk", "req": cfg["sink"], "stall": cfg.get("sink_stall", False)}
+    src = {"t": "src", "kind": cfg.get("src_kind", "ext"), "gen": cfg["src"], "fifo": cfg.get("src_fifo", 0),
+           "stall": cfg.get("src_stall", False), "nodep": cfg.get("src_nodep", False), "fgen": cfg.get("src_fgen", {})}
+    snk = {"t": "snk", "kind": cfg.get("snk_kind", "ext"), "req": cfg["sink"], "stall": cfg.get("sink_stall", False),
+           "xout": cfg.get("snk_xout", [])}
     return [src] + [dict(n) for n in cfg["nodes"]] + [snk]
 
 
@@ -74,9 +199,9 @@ def gen_req(nd):
     if t == "src":
         return list(nd["gen"]), []
     if t == "snk":
-        return [], list(nd["req"])
+        return list(nd.get("xout", [])), list(nd["req"])
     if t == "fn":
-        return ([nd["out"]] if nd["out"] else []), list(nd["ins"])
+        return ([nd["out"]] if nd["out"] else []) + [x[0] for x in nd.get("xouts", [])], list(nd["ins"])
     if t == "call":
         return list(nd["outs"]), list(nd["ins"])
     if t == "ext":
@@ -107,32 +232,55 @@ def liveness(nodes):
 
 
 def capacity(nodes):
-    return sum((nd.get("fifo") or 1) for nd in nodes[:-1])
+    return sum((nd.get("fifo") or 1) for nd in nodes[:-1]) + int(bool(nodes[0].get("nodep")))
+
+
+def hook_list(cfg):
+    """External clear hooks: one list of exit nodes (external modules) per hook.  Old configurations have at
+    most one hook, which clears every external module."""
+    hooks = cfg.get("xhooks")
+    if hooks is None:
+        exits = [n + 1 for n, nd in enumerate(cfg["nodes"]) if nd["t"] == "exit" and nd["via"] == "adapt"]
+        hooks = [exits] if cfg["xclr"] else []
+    return hooks
+
+
+def hook_name(j):
+    return "xclr" if j == 0 else f"xclr{j}"
 
 
 # --------------------------------------------------------------------------------------------
 # the design: PipelineBuilder + the stage functions / bridge transactions (harness stubs)
 
 
-def make_top(cfg, nodes):
-    from amaranth import Elaboratable, Signal
+def make_top(cfg, nodes, T):
+    from amaranth import Elaboratable, Signal, Value
     from transactron import Method, TModule, Transaction
     from transactron.lib.pipeline import PipelineBuilder
     from transactron.utils import from_method_layout
 
+    lay_in, lay_out = T.lay_in, T.lay_out
+    last = len(nodes) - 1
+
     class PipeTop(Elaboratable):
         def __init__(self):
             self.p = PipelineBuilder(allow_unused=bool(cfg["allow_unused"]), allow_empty=bool(cfg["allow_empty"]))
-            self.src = Method(name="src", i=lay(cfg["src"]))
-            self.snk = Method(name="snk", o=lay(cfg["sink"]))
+            self.src = Method(name="src", i=lay_out(0, cfg["src"])) if nodes[0]["kind"] == "ext" else None
+            self.snk = Method(name="snk", o=lay_in(last, cfg["sink"])) if nodes[-1]["kind"] == "ext" else None
             self.rdy: dict = {}
             self.methods: dict = {}
             self.callees: dict = {}
             self.bridge: dict = {}
-            self.xclr = None
+            self.xclr: list = []
+            # function source / sink: request (the stage's ready=), "ran" and what the sink function was given
+            self.fsrc_en = Signal(name="fsrc_en")
+            self.fsrc_done = Signal(name="fsrc_done")
+            self.fsnk_en = Signal(name="fsnk_en")
+            self.fsnk_done = Signal(name="fsnk_done")
+            self.fsnk_x = Signal(from_method_layout(lay_in(last, cfg["sink"])), name="fsnk_x")
 
         def new_method(self, n, i, o):
-            self.methods[n] = Method(name=f"n{n}", i=lay(i), o=lay(o))
+            self.methods[n] = Method(name=f"n{n}", i=lay_out(n, i), o=lay_in(n, o))
             return self.methods[n]
 
         def new_rdy(self, n):
@@ -141,7 +289,7 @@ def make_top(cfg, nodes):
 
         def new_bridge(self, n, o):
             self.bridge[n] = (Signal(name=f"n{n}_bridge_en"), Signal(name=f"n{n}_bridge_done"),
-                              Signal(from_method_layout(lay(o)), name=f"n{n}_bridge_x"))
+                              Signal(from_method_layout(lay_in(n, o)), name=f"n{n}_bridge_x"))
             return self.bridge[n]
 
         def elaborate(self, platform):
@@ -149,69 +297,125 @@ def make_top(cfg, nodes):
             p = self.p
             m.submodules.pipeline = p
             exits: dict = {}
+            if cfg.get("xclr_early"):
+                for x in self.xclr:
+                    p.add_external_clear(x.iface)
+            if cfg.get("pre_fifo"):
+                p.fifo(depth=cfg["pre_fifo"])  # nothing precedes the first node: the builder has nothing to buffer
             for n, nd in enumerate(nodes):
                 kw = {}
                 if n in self.rdy:
                     kw["ready"] = self.rdy[n]
                 t = nd["t"]
                 if t == "src":
-                    p.add_external(self.src, **kw)
+                    if nd["kind"] == "ext":
+                        p.add_external(self.src, no_dependency=bool(nd["nodep"]), **kw)
+                    elif nd["kind"] == "call":
+                        p.call_method(self.callees[n].iface, no_dependency=bool(nd["nodep"]), **kw)
+                    else:
+                        self.add_fsrc(m, p, nd)
                 elif t == "snk":
-                    p.add_external(self.snk, **kw)
+                    if nd["kind"] == "ext":
+                        p.add_external(self.snk, **kw)
+                    elif nd["kind"] == "call":
+                        p.call_method(self.callees[n].iface, **kw)
+                    else:
+                        self.add_fsnk(m, p, nd)
                 elif t == "fn":
                     self.add_fn(m, p, n, nd, kw)
                 elif t == "call":
                     p.call_method(self.callees[n].iface, no_dependency=bool(nd["nodep"]), **kw)
                 elif t == "ext":
-                    p.add_external(self.methods[n], **kw)
+                    p.add_external(self.methods[n], no_dependency=bool(nd.get("nodep")), **kw)
                 elif t == "exit":
                     if nd["via"] == "adapt":
                         p.add_external(self.methods[n], **kw)
                     else:
-                        exits[n] = p.create_external(i=[], o=lay(nd["o"]), name=f"n{n}_exit", **kw)
+                        exits[n] = p.create_external(i=[], o=lay_in(n, nd["o"]), name=f"n{n}_exit", **kw)
                 elif t == "re":
                     if nd["via"] == "adapt":
                         p.add_external(self.methods[n], no_dependency=bool(nd["nodep"]), **kw)
                     else:
-                        re_m = p.create_external(i=lay(nd["i"]), o=[], name=f"n{n}_reentry", no_dependency=True, **kw)
+                        re_m = p.create_external(i=lay_out(n, nd["i"]), o=[], name=f"n{n}_reentry", no_dependency=True,
+                                                 **kw)
                         exit_m = exits[nd["exit"]]
                         en, done, xs = self.bridge[nd["exit"]]
                         with Transaction(name=f"bridge{n}").body(m, ready=en):
                             x = exit_m(m)
                             m.d.comb += done.eq(1)
                             m.d.top_comb += xs.eq(x)
-                            re_m(m, {y: hw_op(op, [x[sf]], k, y) for y, sf, op, k in nd["f"]})
+                            re_m(m, {y: typed(m, T, T.sa[n][y], hw_op(op, [x[sf]], k, T.sa[n][y]))
+                                     for y, sf, op, k in nd["f"]})
                 if nd.get("fifo"):
                     p.fifo(depth=nd["fifo"])
-            if self.xclr is not None:
-                p.add_external_clear(self.xclr.iface)
+            if cfg.get("post_fifo"):
+                p.fifo(depth=cfg["post_fifo"])  # nothing follows the last node
+            if not cfg.get("xclr_early"):
+                for x in self.xclr:
+                    p.add_external_clear(x.iface)
             return m
+
+        def add_fsrc(self, m, p, nd):
+            """The pipeline starts with a function stage: it produces an item whenever it runs.  The function
+            numbers its items (tag = its own counter) and derives the other fields from the number."""
+            cnt = Signal(16, name="fsrc_cnt")
+            fgen = nd["fgen"]
+
+            def fn():
+                m.d.comb += self.fsrc_done.eq(1)
+                m.d.sync += cnt.eq(cnt + 1)
+                out = {}
+                for f in nd["gen"]:
+                    if f == "tag":
+                        out[f] = cnt[:spec_width(T.sa[0]["tag"])]
+                    else:
+                        op, k = fgen[f]
+                        out[f] = typed(m, T, T.sa[0][f], hw_op(op, [cnt], k, T.sa[0][f]))
+                return out
+
+            p.stage(m, o=lay_out(0, nd["gen"]), name="fsrc", ready=self.fsrc_en)(fn)
+
+        def add_fsnk(self, m, p, nd):
+            """The pipeline ends with a function stage that consumes the item (here: shows it to the harness)."""
+
+            def fn(arg):
+                m.d.comb += self.fsnk_done.eq(1)
+                m.d.top_comb += Value.cast(self.fsnk_x).eq(Value.cast(arg))
+
+            p.stage(m, i=lay_in(last, nd["req"]), name="fsnk", ready=self.fsnk_en)(fn)
 
         def add_fn(self, m, p, n, nd, kw):
             ins, out, op, k = nd["ins"], nd["out"], nd["op"], nd["k"]
+            outs = ([[out, op, k]] if out else []) + [list(x) for x in nd.get("xouts", [])]
 
             def body(*vals):
-                if out is None:
+                if not outs:
                     return None
-                return {out: hw_op(op, list(vals), k, out)}
+                return {o: typed(m, T, T.sa[n][o], hw_op(op_, list(vals), k_, T.sa[n][o])) for o, op_, k_ in outs}
 
             style = nd["style"]
             if nd.get("nodep"):
                 kw = dict(kw, no_dependency=True)
+            olay = lay_out(n, [o for o, _, _ in outs])
             if style == "arg":
                 def fn(arg):
                     return body(*[arg[f] for f in ins])
 
-                deco = p.stage(m, o=lay([out] if out else []), i=lay(ins), name=f"n{n}_fn", **kw)
+                deco = p.stage(m, o=olay, i=lay_in(n, ins), name=f"n{n}_fn", **kw)
+            elif style == "kwargs":
+                def fn(**kwargs):
+                    return body(*[kwargs[f] for f in ins])
+
+                deco = p.stage(m, o=olay, i=lay_in(n, ins), name=f"n{n}_fn", **kw)
             else:
                 ns = {"body": body}
                 params = ", ".join(ins)
                 exec(f"def fn({params}):\n    return body({params})\n", ns)
                 fn = ns["fn"]
                 if style == "named_i":
-                    deco = p.stage(m, o=lay([out] if out else []), i=lay(ins), **kw)
+                    deco = p.stage(m, o=olay, i=lay_in(n, ins), **kw)
                 else:
-                    deco = p.stage(m, o=lay([out] if out else []), **kw)
+                    deco = p.stage(m, o=olay, **kw)
             deco(fn)
 
     return PipeTop()
@@ -227,14 +431,66 @@ class Item:
 
 
 class Scen(CompScenario):
+    # ---- ports: one raw (unsigned) port per top-level field, whatever its shape ---------------
+    def caller(self, name, method):
+        from transactron.lib import AdapterTrans
+
+        at = AdapterTrans.create(method)
+        self.top.add(f"at_{name}", at)
+        self.add_input(f"{name}.en", at.en)
+        for f, sig in rawfields(at.data_in):
+            self.add_input(f"{name}.i.{f}", sig)
+        self.add_obs(f"{name}.done", at.done)
+        for f, sig in rawfields(at.data_out):
+            self.add_obs(f"{name}.o.{f}", sig)
+        self.callers[name] = at
+        return at
+
+    def callee(self, name, method=None, i=(), o=(), **kwargs):
+        from transactron.lib import Adapter
+
+        ad = Adapter(name=name, i=i, o=o, **kwargs)
+        self.top.add(f"ad_{name}", ad)
+        self.add_input(f"{name}.en", ad.en)
+        for f, sig in rawfields(ad.data_in):
+            self.add_input(f"{name}.ret.{f}", sig)
+        self.add_obs(f"{name}.done", ad.done)
+        for f, sig in rawfields(ad.data_out):
+            self.add_obs(f"{name}.arg.{f}", sig)
+        return ad
+
     def build(self):
         c = self.cfg
         self.nodes = nodes = full_nodes(c)
         self.N = len(nodes)
-        self.dut = dut = make_top(c, nodes)
+        self.T = T = Types(c, nodes)
+        lay_in, lay_out = T.lay_in, T.lay_out
+        self.dut = dut = make_top(c, nodes, T)
         self.top.add("dut", dut)
-        self.caller("src", dut.src)
-        self.caller("snk", dut.snk)
+        self.src_kind, self.snk_kind = nodes[0]["kind"], nodes[-1]["kind"]
+        if self.src_kind == "ext":
+            self.caller("src", dut.src)
+            self.src_pref = "src.i."
+        elif self.src_kind == "call":
+            dut.callees[0] = self.callee("src", i=[], o=lay_out(0, c["src"]))
+            self.src_pref = "src.ret."
+        else:
+            self.add_input("src.en", dut.fsrc_en)
+            self.add_obs("src.done", dut.fsrc_done)
+            self.src_pref = None
+        if self.snk_kind == "ext":
+            self.caller("snk", dut.snk)
+            self.snk_pref = "snk.o."
+        elif self.snk_kind == "call":
+            dut.callees[self.N - 1] = self.callee("snk", i=lay_in(self.N - 1, c["sink"]),
+                                                  o=lay_out(self.N - 1, nodes[-1]["xout"]))
+            self.snk_pref = "snk.arg."
+        else:
+            self.add_input("snk.en", dut.fsnk_en)
+            self.add_obs("snk.done", dut.fsnk_done)
+            for f, sig in rawfields(dut.fsnk_x):
+                self.add_obs(f"snk.arg.{f}", sig)
+            self.snk_pref = "snk.arg."
         self.caller("clear", dut.p.clear)
         self.pass_nodes = []
         self.feed_nodes = []
@@ -248,13 +504,13 @@ class Scen(CompScenario):
             if t in ("src", "snk"):
                 self.pass_nodes.append(n)
             elif t == "call":
-                dut.callees[n] = self.callee(f"n{n}", i=lay(nd["ins"]), o=lay(nd["outs"]))
+                dut.callees[n] = self.callee(f"n{n}", i=lay_in(n, nd["ins"]), o=lay_out(n, nd["outs"]))
                 self.en_ports.append((f"n{n}.en", "callee"))
                 (self.feed_nodes if nd["nodep"] else self.pass_nodes).append(n)
             elif t == "ext":
                 self.caller(f"n{n}", dut.new_method(n, nd["i"], nd["o"]))
                 self.en_ports.append((f"n{n}.en", "ext"))
-                self.pass_nodes.append(n)
+                (self.feed_nodes if nd.get("nodep") else self.pass_nodes).append(n)
             elif t == "exit":
                 if nd["via"] == "adapt":
                     self.caller(f"n{n}", dut.new_method(n, [], nd["o"]))
@@ -263,16 +519,19 @@ class Scen(CompScenario):
                     en, done, xs = dut.new_bridge(n, nd["o"])
                     self.add_input(f"n{n}.en", en)
                     self.add_obs(f"n{n}.done", done)
-                    for path, sig in leaves(xs):
-                        self.add_obs(f"n{n}.o.{path}", sig)
+                    for f, sig in rawfields(xs):
+                        self.add_obs(f"n{n}.o.{f}", sig)
                 self.en_ports.append((f"n{n}.en", "exit"))
                 self.pass_nodes.append(n)
             elif t == "re":
                 if nd["via"] == "adapt":
                     self.caller(f"n{n}", dut.new_method(n, nd["i"], []))
                 (self.feed_nodes if nd["nodep"] else self.pass_nodes).append(n)
-        if c["xclr"]:
-            dut.xclr = self.callee("xclr", i=[], o=[])
+        self.hooks = [list(h) for h in hook_list(c)]
+        for j in range(len(self.hooks)):
+            dut.xclr.append(self.callee(hook_name(j), i=[], o=[]))
+        hooked = {e for h in self.hooks for e in h}
+        self.unhooked = [e for e in self.buf if e not in hooked]
         self.prev_pass = {}
         last = None
         for n in self.pass_nodes:
@@ -286,20 +545,98 @@ class Scen(CompScenario):
         self.inflight = 0
         self.cap = capacity(nodes)
         self.ntag = 0
+        self.fcnt = 0  # items the source function has produced
         self.quiet = 0
+        self.prev_clear = False
         self.pred: dict = {}
         self.stallable = [name for name, _ in self.en_ports]
+        self.drain_start = c["cycles"] - c["drain"]
+        lc = c.get("late_clear")
+        # [a, ln]: the a + ln cycles before the final drain are a drain too, ending with ln cycles of clear
+        self.win_start = self.drain_start - (lc[0] + lc[1]) if lc else self.drain_start
+        self.clr_start = self.drain_start - lc[1] if lc else self.drain_start
+        self.static_cov()
         return self.top
 
+    def static_cov(self):
+        """What the generated pipeline contains (counted once per run)."""
+        c, nodes, T = self.cfg, self.nodes, self.T
+        after, _, _ = liveness(nodes)
+        seen: set = set()
+        kinds: set = set()
+        for n, nd in enumerate(nodes):
+            gen, req = gen_req(nd)
+            before = after[n - 1] if n else set()
+            for g in gen:
+                if g in seen and g not in before:
+                    self.hit("field_dead_then_recreated")
+                if g in before:
+                    self.hit("field_overwritten_by_its_reader")
+            seen |= set(gen)
+            for g in sorted(nd.get("retype") or {}):
+                if T.sa[n][g] != T.sb[n][g]:
+                    self.hit("field_shape_redefined")
+                    for j in range(n + 1, len(nodes)):  # who sees the new shape first?
+                        gen2, req2 = gen_req(nodes[j])
+                        if g in req2:
+                            self.hit("redefined_field_consumed")
+                            if nodes[j]["t"] == "fn" and nodes[j]["style"] == "named":
+                                self.hit("redefined_field_consumed_by_inferred_inputs")
+                            break
+                        if g in gen2:
+                            break
+            for g in gen:
+                kinds |= spec_kinds(T.sa[n][g])
+            if nd["t"] == "fn":
+                if nd["style"] == "kwargs":
+                    self.hit("stage_function_kwargs")
+                if nd.get("xouts"):
+                    self.hit("stage_function_several_outputs")
+            if nd["t"] == "ext" and nd.get("nodep"):
+                self.hit("middle_external_nodep")
+            if nd.get("fifo") == 1:
+                self.hit("fifo_depth_1")
+        self.hit(f"source_{self.src_kind}")
+        self.hit(f"sink_{self.snk_kind}")
+        if nodes[0]["nodep"]:
+            self.hit("source_nodep")
+        if nodes[-1]["xout"]:
+            self.hit("sink_method_with_unused_result")
+        if c.get("pre_fifo"):
+            self.hit("fifo_before_first_node")
+        if c.get("post_fifo"):
+            self.hit("fifo_after_last_node")
+        if len(self.hooks) >= 2:
+            self.hit("external_clear_hooks_2plus")
+        self.sink_kinds = sorted(set().union(*[spec_kinds(T.sb[self.N - 1][f]) for f in c["sink"]]))
+        for k in sorted(kinds):
+            self.hit(f"field_{k}")
+
     # ---- model helpers ----------------------------------------------------------------------
+    def fval(self, n, f, names):
+        """What node n computes with: the raw bits of its input fields seen with the shapes they have there."""
+        sb = self.T.sb[n]
+        return [sval(sb[x], f[x]) for x in names]
+
+    def omask(self, n, f):
+        return smask(self.T.sa[n][f])
+
+    def owidth(self, n, f):
+        return spec_width(self.T.sa[n][f])
+
     def advance(self, f, it, frm, to, strict):
         """Apply the unobservable nodes frm+1 .. to-1 to the field dict f of item it."""
         for n in range(frm + 1, to):
             nd = self.nodes[n]
             t = nd["t"]
             if t == "fn":
+                xs = self.fval(n, f, nd["ins"])
+                new = {}
                 if nd["out"]:
-                    f[nd["out"]] = py_op(nd["op"], [f[x] for x in nd["ins"]], nd["k"], nd["out"])
+                    new[nd["out"]] = py_op(nd["op"], xs, nd["k"], self.omask(n, nd["out"]))
+                for o, op, k in nd.get("xouts", []):
+                    new[o] = py_op(op, xs, k, self.omask(n, o))
+                f.update(new)
             elif n in self.vals:
                 lst = self.vals[n].get(it.epoch, ())
                 if it.eidx >= len(lst):
@@ -361,9 +698,9 @@ class Scen(CompScenario):
 
     # ---- stimulus -------------------------------------------------------------------------
     def stimulus(self, rng, cyc):
-        c = self.cfg
+        c, T = self.cfg, self.T
         kind, p = phase_at(c["plan"], cyc)
-        drain = cyc >= c["cycles"] - c["drain"]
+        drain = cyc >= self.win_start
         P = c["P"]
         pclear = P["clear"]
         if kind == "random":
@@ -375,6 +712,8 @@ class Scen(CompScenario):
         elif kind == "flush":
             ps, pk, po = 0.9, 0.4, 0.8
             pclear = 0.5 if self.inflight >= self.cap - 1 else 0.12
+            if self.prev_clear:  # clears in back-to-back cycles
+                pclear = 0.5
         elif kind == "full":
             ps, pk, po = 1.0, 1.0, 1.0
         else:  # drainrun
@@ -385,9 +724,12 @@ class Scen(CompScenario):
         stim = {}
         stim["src.en"] = 0 if drain else int(rng.random() < ps)
         stim["snk.en"] = 1 if drain else int(rng.random() < pk)
-        stim["clear.en"] = 0 if drain else int(rng.random() < pclear)
-        if c["xclr"]:
-            stim["xclr.en"] = 1 if drain else int(rng.random() < 0.85)
+        if drain:
+            stim["clear.en"] = int(self.clr_start <= cyc < self.drain_start)
+        else:
+            stim["clear.en"] = int(rng.random() < pclear)
+        for j in range(len(self.hooks)):
+            stim[hook_name(j) + ".en"] = 1 if drain else int(rng.random() < 0.85)
         for name, cls in self.en_ports:
             pr = P[cls] if po is None else po
             if name == victim:
@@ -395,8 +737,12 @@ class Scen(CompScenario):
             stim[name] = 1 if drain else int(rng.random() < pr)
         # source item: unique tag, noise elsewhere
         self.ntag += 1
-        for f in c["src"]:
-            stim[f"src.i.{f}"] = (self.ntag if f == "tag" else rng.getrandbits(FW[f])) & mask(f)
+        if self.src_pref:
+            for f in c["src"]:
+                stim[self.src_pref + f] = (self.ntag if f == "tag" else rng.getrandbits(self.owidth(0, f))) & self.omask(0, f)
+        if self.snk_kind == "call":
+            for f in self.nodes[-1]["xout"]:
+                stim[f"snk.ret.{f}"] = rng.getrandbits(self.owidth(self.N - 1, f))
         self.pred = {}
         for n, nd in enumerate(self.nodes):
             t = nd["t"]
@@ -405,13 +751,13 @@ class Scen(CompScenario):
                 self.pred[n] = f is not None
                 for j, o in enumerate(nd["outs"]):
                     if f is not None:  # the result is a function of the argument (predicted by the model)
-                        v = py_op(nd["op"], [f[x] for x in nd["ins"]], nd["k"] + j, o)
+                        v = py_op(nd["op"], self.fval(n, f, nd["ins"]), nd["k"] + j, self.omask(n, o))
                     else:
-                        v = rng.getrandbits(FW[o])
+                        v = rng.getrandbits(self.owidth(n, o))
                     stim[f"n{n}.ret.{o}"] = v
             elif t == "ext":
                 for o in nd["i"]:
-                    stim[f"n{n}.i.{o}"] = rng.getrandbits(FW[o])
+                    stim[f"n{n}.i.{o}"] = rng.getrandbits(self.owidth(n, o))
             elif t == "re" and nd["via"] == "adapt":
                 buf = self.buf[nd["exit"]]
                 pr = P["re"] if po is None else po
@@ -420,15 +766,15 @@ class Scen(CompScenario):
                 head = buf[0] if buf else {}
                 for y, sf, op, k in nd["f"]:
                     if sf is not None and sf in head:
-                        v = py_op(op, [head[sf]], k, y)
+                        v = py_op(op, self.fval(nd["exit"], head, [sf]), k, self.omask(n, y))
                     else:
-                        v = rng.getrandbits(FW[y])
+                        v = rng.getrandbits(self.owidth(n, y))
                     stim[f"n{n}.i.{y}"] = v
         return stim
 
     # ---- oracle -----------------------------------------------------------------------------
     def check(self, cyc, stim, obs):
-        c = self.cfg
+        c, T = self.cfg, self.T
         nodes = self.nodes
         events = []
         clear_done = obs["clear.done"]
@@ -445,15 +791,28 @@ class Scen(CompScenario):
                     self.hit("stage_stalled_with_items_in_flight")
             if t == "src":
                 en, done = stim.get("src.en", 0), obs["src.done"]
-                self.expect(not done or (en and rdy), "ran-when-not-requested", f"source: en={en} ready={rdy} done", node=n)
-                if en and not obs["src.runnable"]:
+                # behind a no_dependency Pipe the ready= input holds back the combiner, not the acceptance
+                self.expect(not done or (en and (rdy or nd["nodep"])), "ran-when-not-requested",
+                            f"source: en={en} ready={rdy} done", node=n)
+                refused = en and not (obs["src.runnable"] if self.src_kind == "ext" else done)
+                if refused:
                     self.hit("source_refused")
                     if self.inflight >= self.cap:
                         self.hit("source_refused_at_capacity")
                 if done:
                     f = {x: 0 for x in FW}
-                    for x in c["src"]:
-                        f[x] = stim.get(f"src.i.{x}", 0)
+                    if self.src_pref:
+                        for x in c["src"]:
+                            f[x] = stim.get(self.src_pref + x, 0)
+                    else:  # function source: the fields are functions of the function's own item counter
+                        cnt = self.fcnt & 0xFFFF
+                        self.fcnt += 1
+                        for x in c["src"]:
+                            if x == "tag":
+                                f[x] = cnt & self.omask(0, x)
+                            else:
+                                op, k = nd["fgen"][x]
+                                f[x] = py_op(op, [cnt], k, self.omask(0, x))
                     it = Item(len(self.items), f, self.epoch, len(self.items) - self.base, cyc)
                     self.items.append(it)
                     self.inflight += 1
@@ -465,10 +824,12 @@ class Scen(CompScenario):
                     self.hit("sink_backpressure")
                 if done:
                     it = self.pass_event(n)
-                    self.compare(n, it, c["sink"], tuple(obs[f"snk.o.{x}"] for x in c["sink"]), "delivered")
+                    self.compare(n, it, c["sink"], tuple(obs[self.snk_pref + x] for x in c["sink"]), "delivered")
                     it.left = True
                     self.inflight -= 1
                     self.hit("delivered")
+                    for k in self.sink_kinds:
+                        self.hit("delivered_field_" + k)
                     events.append(n)
             elif t == "fn":
                 pass
@@ -496,13 +857,19 @@ class Scen(CompScenario):
                 en, done = stim.get(f"n{n}.en", 0), obs[f"n{n}.done"]
                 if not en:
                     quiet = False
-                self.expect(not done or (en and rdy), "ran-when-not-requested", f"node {n} (ext): en={en} ready={rdy} done", node=n)
+                nodep = nd.get("nodep")
+                self.expect(not done or (en and (rdy or nodep)), "ran-when-not-requested",
+                            f"node {n} (ext): en={en} ready={rdy} done", node=n)
                 if done:
-                    it = self.pass_event(n)
-                    self.compare(n, it, nd["o"], tuple(obs[f"n{n}.o.{x}"] for x in nd["o"]), "returned")
-                    for x in nd["i"]:
-                        it.f[x] = stim.get(f"n{n}.i.{x}", 0)
-                    self.hit("middle_external_called")
+                    v = {x: stim.get(f"n{n}.i.{x}", 0) for x in nd["i"]}
+                    if nodep:  # a value feed: paired with the items by order
+                        self.vals[n].setdefault(self.epoch, []).append(v)
+                        self.hit("middle_external_nodep_fed")
+                    else:
+                        it = self.pass_event(n)
+                        self.compare(n, it, nd["o"], tuple(obs[f"n{n}.o.{x}"] for x in nd["o"]), "returned")
+                        it.f.update(v)
+                        self.hit("middle_external_called")
                     events.append(n)
             elif t == "exit":
                 en, done = stim.get(f"n{n}.en", 0), obs[f"n{n}.done"]
@@ -518,7 +885,7 @@ class Scen(CompScenario):
                         self.buf[n].append(dict(got, _epoch=self.epoch))
                         self.hit("exit_to_harness_buffer")
                     else:  # the bridge transaction wrote f(x) into the re-entry node in this very cycle
-                        v = {y: py_op(op, [got[sf]], k, y) for y, sf, op, k in nodes[r]["f"]}
+                        v = {y: py_op(op, self.fval(n, got, [sf]), k, self.omask(r, y)) for y, sf, op, k in nodes[r]["f"]}
                         self.vals[r].setdefault(self.epoch, []).append(v)
                         self.hit("bridge_transaction_ran")
                     events.append(n)
@@ -534,7 +901,7 @@ class Scen(CompScenario):
                     head = buf.pop(0)
                     self.expect(head["_epoch"] == self.epoch, "cleared-item-survived",
                                 f"the external module between node {nd['exit']} and node {n} re-entered an item it received "
-                                f"before the last clear ({head}): the external clear hook did not reach it", node=n, ntype="re")
+                                f"before the last clear ({head}): its external clear hook was not called", node=n, ntype="re")
                     if nd["nodep"]:
                         self.vals[n].setdefault(self.epoch, []).append(v)
                         self.hit("reentry_nodep_adapters")
@@ -545,20 +912,38 @@ class Scen(CompScenario):
                         self.hit("reentry_dependent_adapters")
                     events.append(n)
         # ---- clear: everything that entered up to and including this cycle and has not left is gone
-        xdone = obs["xclr.done"] if c["xclr"] else clear_done
-        if c["xclr"] and not stim.get("xclr.en", 0):
-            quiet = False
-            if stim.get("clear.en", 0):
-                self.hit("clear_blocked_by_external_clear")
-        if xdone:
-            for b in self.buf.values():
-                if b:
-                    self.hit("external_buffer_cleared")
-                b.clear()
+        # An external module forgets its items when (and only when) its own clear hook is called; a module
+        # without a hook is cleared by its owner together with the pipeline.
+        nonempty_cleared = 0
+        for j, exits in enumerate(self.hooks):
+            name = hook_name(j)
+            if not stim.get(name + ".en", 0):
+                quiet = False
+                if stim.get("clear.en", 0):
+                    self.hit("clear_blocked_by_external_clear")
+            if obs[name + ".done"]:
+                if not clear_done:
+                    self.hit("external_clear_hook_ran_without_clear")
+                for e in exits:
+                    if self.buf[e]:
+                        self.hit("external_buffer_cleared")
+                        nonempty_cleared += 1
+                    self.buf[e].clear()
+        if clear_done:
+            for e in self.unhooked:
+                self.buf[e].clear()
+        if nonempty_cleared >= 2:
+            self.hit("two_external_modules_cleared")
         if clear_done:
             self.hit("clear")
+            if len(self.hooks) >= 2:
+                self.hit("clear_with_2plus_external_hooks")
             if self.inflight:
                 self.hit("clear_with_items_in_flight")
+                if cyc >= self.win_start:
+                    self.hit("clear_during_drain")
+            if self.prev_clear:
+                self.hit("clear_back_to_back")
             if inflight0 >= self.cap:
                 self.hit("clear_with_every_buffer_full")
             if inflight0 * 2 >= self.cap:
@@ -577,6 +962,7 @@ class Scen(CompScenario):
                 self.ptr[n] = self.base
             self.epoch += 1
             self.inflight = 0
+        self.prev_clear = bool(clear_done)
         if self.inflight >= self.cap:
             self.hit("pipeline_at_capacity")
         self.visit((min(inflight0, self.cap + 1), tuple(events), clear_done),
@@ -600,17 +986,37 @@ class Scen(CompScenario):
 # --------------------------------------------------------------------------------------------
 
 
+def rand_spec(rng):
+    return rng.choice([
+        ["s", rng.choice([2, 5, 8, 13, 16])],
+        ["s", rng.choice([2, 5, 8, 13, 16])],
+        ["u", 1],
+        ["u", rng.choice([33, 48, 64])],
+        ["u", rng.choice([40, 64])],
+        ["enum", rng.choice([2, 3])],
+        ["struct", [["x", ["u", 4]], ["y", ["s", 5]]]],
+        ["struct", [["p", ["u", 1]], ["in", ["struct", [["x", ["u", 3]], ["y", ["s", 4]]]]], ["q", ["enum", 2]]]],
+        ["arr", ["u", 4], 3],
+        ["arr", ["s", 3], 4],
+        ["arr", ["struct", [["x", ["u", 2]], ["y", ["u", 3]]]], 2],
+    ])
+
+
 class Prop(PropBase):
     ID = "C28"
     tiers = {
         "quick": {"runs": 300, "selftest_runs": 4},
         "thorough": {"runs": 12000, "selftest_runs": 32},
     }
-    rule = ("one run = one generated pipeline (source, 1-4 middle nodes from {function stage, stalling stage, called "
-            "method, prefetched no_dependency method, middle external, exit + re-entry bridged by a transaction or by "
-            "adapters}, fifo(depth)/Pipe placement, allow_unused/allow_empty, external clear hook) driven for 90-300 "
-            "cycles by a seeded phase plan (random / sink back-pressure / one stage stalled / flush / full speed / "
-            "drain); distinct = distinct (pipeline, items in flight, set of observable nodes executed, clear); "
+    rule = ("one run = one generated pipeline (source and sink each an external, a called method or a function stage; "
+            "1-4 middle nodes from {function stage with one or several outputs declared in four styles, stalling stage, "
+            "called method, prefetched no_dependency method, middle external (also as no_dependency value feed), exit + "
+            "re-entry bridged by a transaction or by adapters}, fifo(depth)/Pipe placement incl. before the first / after "
+            "the last node, allow_unused/allow_empty, 0-3 external clear hooks over the external modules, field shapes "
+            "unsigned / signed / 1-bit / wide / enum / struct / array, a field's shape may be redefined by a node that "
+            "generates it again) driven for 90-300 cycles by a seeded phase plan "
+            "(random / sink back-pressure / one stage stalled / flush / full speed / drain; optionally clear while "
+            "draining); distinct = distinct (pipeline, items in flight, set of observable nodes executed, clear); "
             "non-trivial = something executed or clear ran while items were in flight")
     expected_cov = ["delivered", "sink_backpressure", "stage_stalled_with_items_in_flight",
                     "callee_not_ready_with_items_in_flight", "source_refused_at_capacity", "pipeline_at_capacity", "clear",
@@ -618,13 +1024,22 @@ class Prop(PropBase):
                     "sink_read_in_clear_cycle", "middle_node_ran_in_clear_cycle", "external_buffer_cleared",
                     "clear_blocked_by_external_clear", "bridge_transaction_ran", "exit_to_harness_buffer",
                     "reentry_nodep_adapters", "reentry_dependent_adapters", "nodep_call_prefetched",
-                    "middle_external_called", "callee_result_function_of_argument", "drained_clean"]
+                    "middle_external_called", "callee_result_function_of_argument", "drained_clean",
+                    "clear_with_2plus_external_hooks", "source_call", "source_fn", "sink_call", "sink_fn", "source_nodep",
+                    "stage_function_kwargs", "stage_function_several_outputs", "field_dead_then_recreated",
+                    "field_overwritten_by_its_reader", "middle_external_nodep_fed", "fifo_depth_1",
+                    "fifo_before_first_node", "fifo_after_last_node", "clear_during_drain", "clear_back_to_back",
+                    "delivered_field_signed", "delivered_field_1bit", "delivered_field_wide", "delivered_field_enum",
+                    "delivered_field_struct", "delivered_field_array", "field_shape_redefined",
+                    "redefined_field_consumed"]
     real = ["transactron.lib.pipeline.PipelineBuilder", "transactron.lib.connectors.Pipe / ConnectTrans",
             "transactron.lib.fifo.BasicFifo", "transactron.lib.adapters.AdapterTrans / Adapter",
             "TransactionManager + scheduler", "amaranth pysim"]
     stubs = ["cycle driver (stimulus)", "stage functions from a fixed arithmetic table (generated python functions)",
+             "source function stage numbering its items with its own counter; sink function stage showing its argument",
              "bridge transaction exit -> f -> re-entry inside the harness top module",
-             "harness buffer standing for an external module between exit and re-entry (adapter variant)",
+             "harness buffer standing for an external module between exit and re-entry (adapter variant), emptied when "
+             "its external clear hook is called",
              "called methods are Adapters whose result the driver computes from the predicted argument",
              "untimed reference model (entry-ordered item list, per-node pointers, clear epochs)"]
     search_space = "pipeline shapes and histories of source/sink readiness, per-stage stalls and clears"
@@ -637,29 +1052,67 @@ class Prop(PropBase):
         nsrc = rng.randint(1, 2)
         src = ["tag"] + sorted(rng.sample(DATA[:3], nsrc))
         avail = list(src)
+        known = set(src)
         nmid = rng.choice([1, 2, 2, 3, 3, 4, 4])
         nodes: list = []
+        ftypes: dict = {}
+        if rng.random() < 0.4:
+            for f in DATA:
+                if rng.random() < 0.55:
+                    ftypes[f] = rand_spec(rng)
+        # a node that generates a field again may give it another shape (a share of the runs)
+        retyping = rng.random() < 0.3
+        redefined: list = []
+        cur = {f: ["u", w] for f, w in FW.items()}
+        cur.update(ftypes)
 
-        def pick_out(allow_new=True):
-            new = [f for f in DATA if f not in avail]
-            old = [f for f in avail if f != "tag"]
-            if new and allow_new and (not old or rng.random() < 0.5):
+        def retype(nd, fields):
+            """Maybe redefine the shape of the already known fields among those node nd generates."""
+            for f in fields:
+                if retyping and f and f != "tag" and f in known and rng.random() < 0.6:
+                    w = spec_width(cur[f])
+                    cands = [["u", w * 2], ["u", max(1, w - 3)], ["u", w + 1], ["s", max(2, w)], ["s", w + 4], rand_spec(rng)]
+                    new = rng.choice([x for x in cands if x != cur[f] and spec_width(x) <= 64] or [cur[f]])
+                    if new != cur[f]:
+                        nd.setdefault("retype", {})[f] = new
+                        cur[f] = new
+                        redefined.append(f)
+            known.update(f for f in fields if f)
+
+        def pick_out(allow_new=True, exclude=()):
+            new = [f for f in DATA if f not in avail and f not in exclude]
+            old = [f for f in avail if f != "tag" and f not in exclude]
+            if new and allow_new and (not old or rng.random() < (0.25 if retyping else 0.5)):
                 return rng.choice(new)
-            return rng.choice(old)
+            return rng.choice(old) if old else None
 
         def fifo():
             return rng.choice([0, 0, 0, 1, 2, 3, 4])
 
         def add_fn(stall=None):
             ins = rng.sample(avail, rng.choice([0, 1, 1, 1, 2, 2]) if len(avail) > 1 else rng.choice([0, 1]))
+            if redefined and rng.random() < 0.7:  # somebody should look at a field whose shape was redefined
+                f = redefined.pop(0)
+                if f not in ins:
+                    ins = [f] + ins[:1]
             out = None if rng.random() < 0.12 else pick_out()
             nd = {"t": "fn", "ins": ins, "out": out, "op": rng.randrange(NOPS), "k": rng.randrange(256),
                   "stall": (rng.random() < 0.3) if stall is None else stall, "fifo": fifo(),
-                  "style": rng.choice(["named", "named", "named_i", "arg"]),
+                  "style": rng.choice(["named", "named", "named_i", "arg", "kwargs"] + (["named"] * 3 if retyping else [])),
                   "nodep": bool(not ins and out and rng.random() < 0.5)}
+            xouts = []
+            if out and rng.random() < 0.3:
+                for _ in range(rng.choice([1, 1, 2])):
+                    o = pick_out(exclude=[out] + [x[0] for x in xouts])
+                    if o:
+                        xouts.append([o, rng.randrange(NOPS), rng.randrange(256)])
+            if xouts:
+                nd["xouts"] = xouts
+            retype(nd, [out] + [x[0] for x in xouts])
             nodes.append(nd)
-            if out and out not in avail:
-                avail.append(out)
+            for o in [out] + [x[0] for x in xouts]:
+                if o and o not in avail:
+                    avail.append(o)
 
         while len(nodes) < nmid:
             room = nmid - len(nodes)
@@ -680,12 +1133,14 @@ class Prop(PropBase):
                             avail.append(o)
                 nodes.append({"t": "call", "ins": ins, "outs": outs, "op": rng.randrange(NOPS), "k": rng.randrange(200),
                               "nodep": False, "stall": rng.random() < 0.25, "fifo": fifo()})
+                retype(nodes[-1], outs)
             elif k == "gen":
                 o = pick_out()
                 if o not in avail:
                     avail.append(o)
                 nodes.append({"t": "call", "ins": [], "outs": [o], "op": 0, "k": 0, "nodep": rng.random() < 0.7,
                               "stall": rng.random() < 0.25, "fifo": fifo()})
+                retype(nodes[-1], [o])
             elif k == "ext":
                 o = rng.sample(avail, rng.randint(0, min(3, len(avail))))
                 i = []
@@ -693,7 +1148,16 @@ class Prop(PropBase):
                     i = [pick_out()]
                     if i[0] not in avail:
                         avail.append(i[0])
-                nodes.append({"t": "ext", "o": o, "i": i, "stall": rng.random() < 0.25, "fifo": fifo()})
+                nd = {"t": "ext", "o": o, "i": i, "stall": rng.random() < 0.25, "fifo": fifo()}
+                if rng.random() < 0.35:  # a no_dependency node cannot observe anything: a pure value feed
+                    nd["o"] = []
+                    if not i:
+                        nd["i"] = [pick_out()]
+                        if nd["i"][0] not in avail:
+                            avail.append(nd["i"][0])
+                    nd["nodep"] = True
+                retype(nd, nd["i"])
+                nodes.append(nd)
             else:  # exit + re-entry
                 via = rng.choice(["trans", "adapt"])
                 xo = rng.sample(avail, rng.randint(1, len(avail)))
@@ -725,16 +1189,45 @@ class Prop(PropBase):
                 nodes.append({"t": "re", "via": via, "exit": nexit, "i": ys, "f": f,
                               "nodep": True if via == "trans" else rng.random() < 0.5,
                               "stall": rng.random() < 0.2, "fifo": fifo()})
+                retype(nodes[-1], ys)
         rest = [f for f in avail if f != "tag"]
         sink = ["tag"] + rng.sample(rest, rng.randint(0, len(rest)))
+        # external clear hooks: 0-3, every external module (adapter-bridged exit) belongs to at most one of them
+        exits = [n + 1 for n, nd in enumerate(nodes) if nd["t"] == "exit" and nd["via"] == "adapt"]
+        nhooks = rng.choice([0, 1, 1, 2, 2, 3]) if exits else rng.choice([0, 0, 0, 1, 1, 2, 3])
+        hooks: list = [[] for _ in range(nhooks)]
+        for e in exits:
+            if nhooks and rng.random() < 0.9:
+                hooks[rng.randrange(nhooks)].append(e)
         cfg = {"src": src, "nodes": nodes, "sink": sink, "src_fifo": fifo(), "src_stall": rng.random() < 0.15,
-               "sink_stall": rng.random() < 0.2, "xclr": rng.random() < 0.45}
+               "sink_stall": rng.random() < 0.2, "xclr": nhooks > 0, "xhooks": hooks, "xclr_early": rng.random() < 0.3}
+        # what the pipeline begins and ends with
+        cfg["src_kind"] = rng.choice(["ext"] * 6 + ["call"] * 2 + ["fn"] * 2)
+        cfg["snk_kind"] = rng.choice(["ext"] * 6 + ["call"] * 2 + ["fn"] * 2)
+        if cfg["src_kind"] == "fn":  # the function's ready= is the driver's request bit
+            cfg["src_stall"] = False
+            cfg["src_fgen"] = {f: [rng.randrange(NOPS), rng.randrange(256)] for f in src if f != "tag"}
+        elif rng.random() < 0.2:
+            cfg["src_nodep"] = True
+        if cfg["snk_kind"] == "fn":
+            cfg["sink_stall"] = False
+        elif cfg["snk_kind"] == "call" and rng.random() < 0.3:
+            cfg["snk_xout"] = [rng.choice(DATA)]  # the called method returns something nobody uses
+        if rng.random() < 0.2:
+            cfg["pre_fifo"] = rng.choice([1, 2, 4])
+        if rng.random() < 0.2:
+            cfg["post_fifo"] = rng.choice([1, 2, 4])
+        if ftypes:
+            cfg["ftypes"] = ftypes
         _, unused, empty = liveness(full_nodes(cfg))
         cfg["allow_unused"] = bool(unused or rng.random() < 0.25)
         cfg["allow_empty"] = bool(empty or rng.random() < 0.25)
         cap = capacity(full_nodes(cfg))
         cfg["drain"] = 2 * cap + 2 * len(nodes) + 10
         cycles = rng.randint(100, 300) if tier == "thorough" else rng.randint(90, 220)
+        if rng.random() < 0.3:  # clear while the pipeline drains: a cycles of draining, then ln cycles of clear
+            cfg["late_clear"] = [rng.choice([0, 0, 1, 1, 2, 3, cap]), rng.choice([1, 1, 2, 3])]
+            cycles += sum(cfg["late_clear"])
         cfg["cycles"] = cycles
         cfg["sched"] = rng.choice(["eager", "eager", "rr"])
         pr = [0.3, 0.5, 0.7, 0.9, 1.0]
@@ -751,14 +1244,18 @@ class Prop(PropBase):
 
     def features(self, cfg, viol):
         info = viol.get("info") or {}
-        return {"ntype": info.get("ntype"), "shape": "-".join(n["t"] + ("*" if n.get("nodep") else "") for n in cfg["nodes"])}
+        shape = "-".join(n["t"] + ("*" if n.get("nodep") else "") for n in cfg["nodes"])
+        return {"ntype": info.get("ntype"), "shape": shape, "ends": f"{cfg.get('src_kind', 'ext')}/{cfg.get('snk_kind', 'ext')}"}
 
     def violation_class(self, feats):
         return {"kind": feats["kind"]}
 
     def cfg_signature(self, cfg):
         return [cfg["src"], cfg["nodes"], cfg["sink"], cfg["src_fifo"], cfg["src_stall"], cfg["sink_stall"], cfg["xclr"],
-                cfg["allow_unused"], cfg["allow_empty"], cfg["sched"]]
+                cfg["allow_unused"], cfg["allow_empty"], cfg["sched"], cfg.get("xhooks"), cfg.get("xclr_early", False),
+                cfg.get("src_kind", "ext"), cfg.get("snk_kind", "ext"), cfg.get("src_nodep", False),
+                cfg.get("src_fgen"), cfg.get("snk_xout"), cfg.get("pre_fifo", 0), cfg.get("post_fifo", 0),
+                cfg.get("ftypes"), cfg.get("late_clear")]
 
     def shrink_cfg(self, cfg):
         # node indices name the ports, so nodes are not removed; buffers are replaced by the default Pipe
@@ -772,6 +1269,20 @@ class Prop(PropBase):
             if nd.get("fifo"):
                 c = copy.deepcopy(cfg)
                 c["nodes"][i]["fifo"] = 0
+                yield c
+        for key in ("pre_fifo", "post_fifo", "xclr_early"):
+            if cfg.get(key):
+                c = copy.deepcopy(cfg)
+                del c[key]
+                yield c
+        for f in sorted(cfg.get("ftypes") or {}):  # back to the default unsigned scalar
+            c = copy.deepcopy(cfg)
+            del c["ftypes"][f]
+            yield c
+        for i, nd in enumerate(cfg["nodes"]):
+            for f in sorted(nd.get("retype") or {}):  # the field keeps the shape it had
+                c = copy.deepcopy(cfg)
+                del c["nodes"][i]["retype"][f]
                 yield c
         if cfg["sched"] != "eager":
             c = copy.deepcopy(cfg)
